@@ -79,6 +79,51 @@ def env_paths(env):
     }
 
 
+def default_paths():
+    """The module-level functions plus the methods of the package's DEFAULT_ENV (they must stay the same thing)."""
+    import jsonpath_rfc9535 as jp
+    lst = lambda it: list(it)  # noqa: E731
+    pm = env_paths(jp.DEFAULT_ENV)
+    pm.update({
+        "module.find": ("list", lambda q, d: lst(jp.find(q, d))),
+        "module.finditer": ("list", lambda q, d: lst(jp.finditer(q, d))),
+        "module.find_one": ("one", lambda q, d: jp.find_one(q, d)),
+        "module.compile.find": ("list", lambda q, d: lst(jp.compile(q).find(d))),
+        "module.compile.apply": ("list", lambda q, d: lst(jp.compile(q).apply(d))),
+        "module.compile.finditer": ("list", lambda q, d: lst(jp.compile(q).finditer(d))),
+        "module.compile.find_one": ("one", lambda q, d: jp.compile(q).find_one(d)),
+    })
+    return pm
+
+
+def lifetime_paths():
+    """Entry points used the way one-liners use them: nothing keeps the environment (or the query) alive except the
+    object being used; a garbage collection runs before the result is consumed."""
+    import gc
+
+    import jsonpath_rfc9535 as jp
+    lst = lambda it: list(it)  # noqa: E731
+
+    def gcd(x):
+        gc.collect()
+        return x
+
+    def mk():
+        env = jp.JSONPathEnvironment()
+        return env
+    return {
+        "env.compile.finditer": ("list", lambda q, d: lst(jp.JSONPathEnvironment().compile(q).finditer(d))),
+        "dropped-env.compile.find": ("list", lambda q, d: lst(gcd(mk().compile(q)).find(d))),
+        "dropped-env.compile.apply": ("list", lambda q, d: lst(gcd(mk().compile(q)).apply(d))),
+        "dropped-env.compile.finditer": ("list", lambda q, d: lst(gcd(gcd(mk().compile(q)).finditer(d)))),
+        "dropped-env.compile.find_one": ("one", lambda q, d: gcd(mk().compile(q)).find_one(d)),
+        "dropped-env.finditer": ("list", lambda q, d: lst(gcd(mk().finditer(q, d)))),
+        "dropped-env.find": ("list", lambda q, d: lst(gcd(mk().find(q, d)))),
+        "dropped-query.finditer": ("list", lambda q, d: lst(gcd(jp.compile(q).finditer(d)))),
+        "dropped-subclass-env.compile.find": ("list", lambda q, d: lst(gcd(type("E", (jp.JSONPathEnvironment,), {})().compile(q)).find(d))),
+    }
+
+
 def agree(pathsmap, q, doc, stage):
     """All paths of one environment agree with list(compile(q).finditer(doc)) (results or exception class)."""
     outcomes = {}
@@ -121,22 +166,41 @@ def examine_reconfigure(case):
                 return result
         return F()
 
-    env = jp.JSONPathEnvironment()
-    pm = env_paths(env)
+    target = case.get("target", "fresh")
+    if target == "default":
+        with lib.default_env_sandbox() as env:
+            return _reconfigure(case, env, default_paths(), mk, T)
+    if target == "subclass":
+        env = type("SubEnv", (jp.JSONPathEnvironment,), {})()
+    else:
+        env = jp.JSONPathEnvironment()
+    return _reconfigure(case, env, env_paths(env), mk, T)
+
+
+def _reconfigure(case, env, pm, mk, T):
+    import jsonpath_rfc9535 as jp
     doc = case["doc"]
-    env.function_extensions["f"] = mk([T.VALUE], T.LOGICAL, True)
-    env.function_extensions["g"] = mk([T.VALUE], T.VALUE, 1)
-    stored = {}
-    for q in case["queries"]:
-        f = agree(pm, q, doc, "before reconfiguration")
-        if f:
-            return f
-        try:
-            stored[q] = env.compile(q)
-        except Exception:  # noqa: BLE001
-            pass
     how = case["how"]
     via = case.get("via", "item")
+    target = case.get("target", "fresh")
+    env.function_extensions["f"] = mk([T.VALUE], T.LOGICAL, True)
+    env.function_extensions["g"] = mk([T.VALUE], T.VALUE, 1)
+    if how == "mode":
+        # the traversal mode is configuration like any other: switched on first, off again below
+        env.nondeterministic = True
+    stored = {}
+    for q in case["queries"]:
+        if how != "mode":
+            f = agree(pm, q, doc, "before reconfiguration")
+            if f:
+                return f
+        try:
+            stored[q] = env.compile(q)
+            if how == "mode":
+                for name, (kind, fn) in pm.items():
+                    fn(q, doc)
+        except Exception:  # noqa: BLE001
+            pass
     reg = env.function_extensions
 
     def put(name, fn):
@@ -172,11 +236,27 @@ def examine_reconfigure(case):
         drop("f")
         drop("length")
     elif how == "retype":
-        put("f", mk([T.VALUE, T.VALUE], T.LOGICAL, False))
-        put("g", mk([T.NODES], T.LOGICAL, True))
+        if via == "instance-attr":
+            # the declared types of the SAME registered objects change in place
+            reg["f"].arg_types = [T.VALUE, T.VALUE]
+            reg["g"].arg_types = [T.NODES]
+            reg["g"].return_type = T.LOGICAL
+        elif via == "class-attr":
+            type(reg["f"]).arg_types = [T.VALUE, T.VALUE]
+            type(reg["g"]).arg_types = [T.NODES]
+            type(reg["g"]).return_type = T.LOGICAL
+        else:
+            put("f", mk([T.VALUE, T.VALUE], T.LOGICAL, False))
+            put("g", mk([T.NODES], T.LOGICAL, True))
     elif how == "bounds":
-        env.max_int_index = 1
-        env.min_int_index = -1
+        if via == "class-attr" and target == "default":
+            jp.JSONPathEnvironment.max_int_index = 1
+            jp.JSONPathEnvironment.min_int_index = -1
+        else:
+            env.max_int_index = 1
+            env.min_int_index = -1
+    elif how == "mode":
+        env.nondeterministic = False
     elif how == "behaviour":
         put("f", mk([T.VALUE], T.LOGICAL, False))
         put("g", mk([T.VALUE], T.VALUE, 2))
@@ -212,7 +292,7 @@ def examine_reconfigure(case):
                             f"configuration ({typecheck.check(res.ast, model, lo, hi)}) but compile() still accepts it", "JSONPathError", "compiled")
         # a query compiled before the change, applied after it, behaves like a fresh compile whenever the text
         # still compiles (configuration is read when the query is applied)
-        if q in stored and how in ("behaviour", "recursion-limit"):
+        if q in stored and how in ("behaviour", "recursion-limit", "mode"):
             try:
                 fresh = ("ok", sig_nodes(list(env.compile(q).finditer(doc))))
             except Exception as e:  # noqa: BLE001
@@ -231,6 +311,8 @@ def examine(case):
     global _PATHS
     if case.get("kind") == "reconfigure":
         return examine_reconfigure(case)
+    if case.get("kind") == "lifetime":
+        return agree(lifetime_paths(), case["q"], get_doc(case), "nothing but the object in use keeps its environment alive")
     if _PATHS is None:
         _PATHS = paths()
     q, doc = case["q"], get_doc(case)
@@ -317,17 +399,32 @@ def run_shard(spec, shard):
         elif k < 0.32:
             qs = r.sample(["$[?f(@.a)]", "$[?g(@.a) == 1]", "$[?length(@) > 1]", "$[2]", "$[-2:]", "$[?f(@)]..[1]", "$[?!f(@.b)]",
                            "$..[?g(@) == 1]", "$[?count(@.*) > 0 && f(1)]", "$[0]", "$[?@[5]]"], 4)
-            case = {"kind": "reconfigure", "doc": doc, "queries": qs, "how": r.choice(["delete", "retype", "bounds", "behaviour", "recursion-limit"]),
-                    "via": r.choice(["item", "update", "ior", "pop-setdefault", "popitem"]), "limit": r.choice([1, 2, 3])}
-            if case["how"] == "recursion-limit":
+            # more queries of the same families, so the same text is not always the first use of a function
+            qs = qs + r.sample(["$[?f(@.b)]", "$[?g(@.b) == 1]", "$[?count(@.*) == g(@.a)]", "$[?f(g(@.a))]", "$[?length(g(@.a)) == 1]",
+                                "$[?f(@.a) && f(@.b)]", "$[?g(@.a) == g(@.b)]", "$[1]", "$[-1]"], 2)
+            case = {"kind": "reconfigure", "doc": doc, "queries": qs,
+                    "how": r.choice(["delete", "retype", "bounds", "behaviour", "recursion-limit", "mode"]),
+                    "via": r.choice(["item", "update", "ior", "pop-setdefault", "popitem", "instance-attr", "class-attr"]), "limit": r.choice([1, 2, 3]),
+                    "target": r.choice(["fresh", "fresh", "default", "subclass"])}
+            if case["how"] in ("recursion-limit", "mode"):
                 case["queries"] = r.sample(["$..a", "$..*", "$[0]..[?f(@)]", "$..[?g(@) == 1]", "$.a..b", "$..[0]", "$[?count(@..*) > 1]"], 4)
                 case["doc"] = r.choice([doc, nest(r.choice([2, 3, 4, 5])), [nest(3), nest(1)]])
-            shard.case(key=(case["queries"], case["how"], case["via"], case["doc"]), nontrivial=True,
-                       classes={"reconfigure:" + case["how"], "via:" + case["via"]}, sample={"queries": case["queries"], "how": case["how"], "via": case["via"]})
+            shard.case(key=(case["queries"], case["how"], case["via"], case["target"], case["doc"]), nontrivial=True,
+                       classes={"reconfigure:" + case["how"], "via:" + case["via"], "target:" + case["target"]},
+                       sample={"queries": case["queries"], "how": case["how"], "via": case["via"], "target": case["target"]})
             f = examine(case)
             if f:
                 shard.fail(f["bucket"], case, f)
-        elif k < 0.4:
+        elif k < 0.44:
+            lq = text if r.random() < 0.6 else r.choice(["$[?length(@.a) > 0]", "$..[?count(@.*) > 1]", "$[?match(@.a, 'a.*')]", "$[?search(@.b, '[a-z]')]",
+                                                         "$[?value(@.*) == 1]", "$.*[?length(@) >= 1]", "$[?nope(@)]", "$[?length(@)]"])
+            case = {"kind": "lifetime", "q": lq, "doc": doc}
+            shard.case(key=("lifetime", lq, doc), nontrivial=True, classes={"lifetime:environment-dropped", "call" if "(" in lq else "no-call"},
+                       sample={"kind": "lifetime", "q": lq})
+            f = examine(case)
+            if f:
+                shard.fail(f["bucket"], case, f)
+        elif k < 0.52:
             one({"q": r.choice(["$..a", "$..*", "$[0]..[?@.a]", "$.a..z[0]", "$..[?@.z]", "$.*..a", "$..nomatch",
                                 "$..[?@.nomatch]", "$..[7]"]),
                  "deep": r.choice([10, 30, 49, 50, 51, 60, 80, 98, 99, 100, 101, 102, 120])}, {"deep-document"})
@@ -337,7 +434,7 @@ def run_shard(spec, shard):
 
 def minimise(case, failure, tier):
     bucket = failure["bucket"]
-    if case.get("kind") == "reconfigure":
+    if case.get("kind") in ("reconfigure", "lifetime"):
         return case, failure
     cur = dict(case)
 
